@@ -541,13 +541,16 @@ impl Inner {
                 }
                 None => "none".into(),
             },
-            ["ev", "established", p, c] => {
+            ["ev", "established", p, c, rest @ ..] => {
                 let (Some(p), Some(c)) = (n(p), n(c)) else { return "bad-op".into() };
                 let (p, c) = (p as u64, c as u64);
-                if self.conns.contains_key(&(p, c)) {
+                // at most two connections per peer (the transport manager never reports more)
+                if self.conns.contains_key(&(p, c)) || self.conns.keys().filter(|k| k.0 == p).count() >= 2 {
                     "none".into()
                 } else {
                     let (tx, rx) = channel(4096);
+                    // `dead`: the connection task is already gone when the event is handled
+                    let rx = if rest.first() == Some(&"dead") { None } else { Some(rx) };
                     let address: Multiaddr = format!("/ip4/10.0.0.{p}/tcp/4444").parse().expect("address");
                     let _ = self
                         .tx
@@ -558,7 +561,7 @@ impl Inner {
                             sender: ConnectionHandle::new(ConnectionId::from(c as usize), tx.clone()),
                         })
                         .await;
-                    self.conns.insert((p, c), Conn { tx, rx: Some(rx) });
+                    self.conns.insert((p, c), Conn { tx, rx });
                     "ok".into()
                 }
             }
@@ -568,7 +571,6 @@ impl Inner {
                 match self.conns.remove(&(p, c)) {
                     None => "none".into(),
                     Some(_) => {
-                        self.opens.retain(|_, o| (o.0, o.1) != (p, c));
                         let _ = self
                             .tx
                             .send(InnerTransportEvent::ConnectionClosed {
